@@ -367,25 +367,34 @@ def check(src, rep, tier):
     rep.need('C15.R2', 3)
     rep.need('C15.R3', 8)
     rep.need('C15.R4', 6)
-    rep.guard('C15.R1', r1_funnel, src)
+    from . import common
+    rep.need('C15.R7', 3)
+    n_v, n_e = len(rep.violations), len(rep.errors)
+    rep.guard('C15.R7', r7_end_to_end, src, tier)
+    texts_hold = len(rep.violations) == n_v and len(rep.errors) == n_e
+    # a function behind a memo runs once per argument tuple: what it reports (the lenient parser's warnings) is reported once
+    rep.guard('C15.R8', common.check_memo_is_silent, src, 'C15.R8', ['changelog'],
+              'a changelog that is parsed a second time (or a second block with the same heading text) is read without the warning that strict parsing turns into an error')
+    # the transition-system readings of the line loop (exact for EVERY line of each class when the loop is in the model's vocabulary);
+    # where it is not, the interpreted texts decide
+    softm = common.SoftErrors(rep, lambda: texts_hold, 'the interpreted texts (C15.R7), which hold')
+    softm.guard('C15.R1', r1_funnel, src)
 
     def rest(r):
         model = Model(src, r)
         out = r2_typestate(r, src, model)
         return model, out[0]
-    got = rep.guard('C15.R2', rest)
+    got = softm.guard('C15.R2', rest)
     if got is not None:
         model, states = got
-        rep.guard('C15.R3', r3_no_other_escape, src, model)
-        rep.guard('C15.R4', r4_eof, src, model, states)
+        softm.guard('C15.R3', r3_no_other_escape, src, model)
+        softm.guard('C15.R4', r4_eof, src, model, states)
+    elif texts_hold:
+        for r_ in ('C15.R2', 'C15.R3', 'C15.R4'):
+            rep.min_instances[r_] = 0
     rep.need('C15.R5', 10)
-    from . import common
     rep.guard('C15.R5', common.check_line_primitive, src, 'C15.R5', [M + ':Changelog.parse_changelog'],
               'the text str() writes for a changelog read from a file object is not read back as the same lines')
-    rep.need('C15.R7', 3)
-    n_v, n_e = len(rep.violations), len(rep.errors)
-    rep.guard('C15.R7', r7_end_to_end, src, tier)
-    texts_hold = len(rep.violations) == n_v and len(rep.errors) == n_e
     # (the template-level reading of the normal form: exact for every block the writer can produce when the writer is in its vocabulary)
     n_r5 = sum(1 for i_ in rep.instances if i_.get('rule') == 'C15.R5')
     common.SoftErrors(rep, lambda: texts_hold, 'the interpreted texts (C15.R7), which hold').guard('C15.R5', r5_normal_form, src)
